@@ -6,7 +6,12 @@ VERIF = os.path.dirname(os.path.dirname(os.path.abspath(__file__)))
 REPO = os.environ.get("FV_REPO", "/repo")
 sel = sys.argv[1:]
 rows = []
-for name in sorted(os.listdir(os.path.join(VERIF, "seeded"))):
+shard = os.environ.get("FV_SHARD")        # "i/n": developer runs split over scratch worktrees (results merged into RESULTS.json under a lock)
+allnames = sorted(n for n in os.listdir(os.path.join(VERIF, "seeded")) if os.path.isdir(os.path.join(VERIF, "seeded", n)))
+if shard:
+    si, sn = (int(x) for x in shard.split("/"))
+    allnames = [n for k, n in enumerate(allnames) if k % sn == si]
+for name in allnames:
     d = os.path.join(VERIF, "seeded", name)
     if not os.path.isdir(d) or (sel and not any(s in name for s in sel)):
         continue
@@ -29,8 +34,11 @@ for name in sorted(os.listdir(os.path.join(VERIF, "seeded"))):
         subprocess.run(["git", "-C", REPO, "checkout", "--", "."])
 for r in rows:
     print("%-42s %-4s %-12s %s" % r)
+import fcntl
 rp = os.path.join(VERIF, "seeded", "RESULTS.json")
-old = json.load(open(rp)) if (sel and os.path.exists(rp)) else []
+lk = open(rp + ".lock", "w")
+fcntl.flock(lk, fcntl.LOCK_EX)
+old = json.load(open(rp)) if ((sel or shard) and os.path.exists(rp)) else []
 done = {(r[0], r[1]) for r in rows}
 merged = [list(r) for r in old if (r[0], r[1]) not in done] + [list(r) for r in rows]
 merged.sort()
